@@ -96,6 +96,7 @@ def cases(tier, seed):
             cs.append({'T': 'T7', 'op': 'rate', 'beh': beh, 'after': [0, 1, 3, 10][rep_]})
     for bn in ('SSH-1.5-OpenSSH_1.2.3', 'SSH-1.99-OpenSSH_3.4p1', 'SSH-1.5-Cisco-1.25'):
         cs.append({'T': 'T5', 'op': 'differ-again', 'banner': bn})
+        cs.append({'T': 'T5', 'op': 'differ-again', 'banner': bn, 'opts': ['-2'], 'serves_ssh1': True})
     # the documented default timeout (5 s) when -t is not given: client audit and server audit against a peer that says nothing / stops after its banner
     for T, op, at in (('T6', 'stall_before', 'banner'), ('T6', 'stall_before', 'kexinit'), ('T1', 'stall_before', 'banner'), ('T1', 'stall_before', 'kexinit')):
         cs.append({'T': T, 'op': op, 'conn': 0, 'at': at, 'default_timeout': True})
@@ -403,7 +404,10 @@ def run_rate(c):
 def run_differ(c):
     """A peer that answers every connection - the SSH-2 attempt and the SSH-1 fall-back alike - with its banner and 'Protocol major versions differ.': one fall-back, a reported error, a documented status."""
     script = {'banner': c['banner'], 'proto': 1}
-    r, p = audit.audit_server(script, ['-n', '-t', '2'], monitors=['sockets'], base=['--skip-rate-test'], timeout=60)
+    if c.get('serves_ssh1'):
+        # ... or would serve protocol 1 on a second connection - which the user excluded with -2: the refusal of the only permitted protocol is the end of the audit
+        script['ssh1'] = {'cmask': 0x48, 'amask': 0x0c}
+    r, p = audit.audit_server(script, ['-n', '-t', '2'] + list(c.get('opts', [])), monitors=['sockets'], base=['--skip-rate-test'], timeout=60)
     viol, counters = [], {'fallback_refused_again': 1, 'recv_events': len(r.mon('recv'))}
     if r.timed_out:
         return {'verdict': 'inconclusive', 'why': 'watchdog', 'case': c}
@@ -413,6 +417,8 @@ def run_differ(c):
         viol.append(_v('C09/uncaught:fallback-refused-again@%s' % ('%s.%s' % frames[-1] if frames else '?'), 'the audit ended through an uncaught exception / the internal error status', status=r.status, tail=txt[-400:]))
     elif r.status != 1 or report.parse_text(r.out).has_alg_lines():
         viol.append(_v('C09/report-for-malformed-handshake:fallback-refused-again', 'no connection delivered algorithm lists, yet the audit shows a report / a findings status', status=r.status, tail=r.out[-300:]))
+    if c.get('serves_ssh1') and len(p.conns) > 1:
+        viol.append(_v('C09/fallback-to-excluded-protocol', 'with -2 the audit fell back to protocol 1 on a second connection', connections=len(p.conns)))
     if len(p.conns) > 2:
         viol.append(_v('C09/fallback-repeated', 'the SSH-1 fall-back was taken more than once', connections=len(p.conns)))
     return {'violations': viol, 'counters': counters, 'nontrivial': len(p.conns) >= 1, 'sample': {'case': c, 'status': r.status, 'connections': len(p.conns)}, 'sample_kind': 'differ'}
